@@ -106,6 +106,9 @@ type (
 	Assign struct {
 		LHS []Expr
 		RHS []Expr
+		// Unaliased: the generator guarantees that the containers the targets designate have no
+		// other names, so a store at index len (an append) is visible exactly through the target
+		Unaliased bool
 	}
 	ElseIf struct {
 		Cond Expr
